@@ -459,7 +459,7 @@ func isPureLibFunc(fn *ssa.Function) bool {
 		return fn.Name() == "Marshal" || fn.Name() == "MarshalIndent"
 	case "bytes":
 		switch fn.Name() {
-		case "Equal", "Compare", "HasPrefix", "HasSuffix", "Contains", "Index", "IndexByte", "TrimLeft", "TrimRight", "TrimSpace", "Count":
+		case "Equal", "Compare", "HasPrefix", "HasSuffix", "Contains", "Index", "IndexByte", "TrimLeft", "TrimRight", "TrimSpace", "Count", "Trim", "TrimPrefix", "TrimSuffix", "ToLower", "ToUpper", "Repeat", "Join", "EqualFold", "LastIndex", "LastIndexByte":
 			return recv == nil
 		}
 	case "regexp":
